@@ -33,6 +33,19 @@ class Raised(Exception):
         self.origin = origin if origin is not None else (msg.split(":", 1)[0] if msg and ":" in msg and " " not in msg.split(":", 1)[0] else None)
 
 
+def _is_generator(fn_node):
+    """Does the function body (not a nested function) contain yield?"""
+    todo = list(fn_node.body)
+    while todo:
+        n = todo.pop()
+        if isinstance(n, (ast.Yield, ast.YieldFrom)):
+            return True
+        if isinstance(n, (ast.FunctionDef, ast.AsyncFunctionDef, ast.Lambda, ast.ClassDef)):
+            continue
+        todo.extend(ast.iter_child_nodes(n))
+    return False
+
+
 class Outcome:
     __slots__ = ("kind", "value", "exc", "where")
 
@@ -144,6 +157,17 @@ class Evaluator:
         node = fi.node
         if isinstance(node, ast.Lambda):
             return self.eval(node.body, fr)
+        if _is_generator(node):
+            # a generator function is run to exhaustion and its values handed over as a list (the package's generators
+            # are finite and have no side effects between yields that a consumer could interleave with)
+            fr.yielded = []
+            out = self.exec_block(node.body, fr)
+            if out is not None and out.kind == "raise":
+                raise Raised(out.exc, msg=out.where or f"raised on every path of {fi.qualname}")
+            if fr.pending:
+                self.unsupported("generator with a return under an undecided condition", node, fr)
+            self.last_frame = fr
+            return ListV(fr.yielded)
         out = self.exec_block(node.body, fr)
         if out is not None and out.kind == "raise":
             raise Raised(out.exc, msg=out.where or f"raised on every path of {fi.qualname}")
@@ -1238,6 +1262,19 @@ class Evaluator:
 
     def binop(self, op, a, b, node, fr):
         return self.ext.binop(self, op, a, b, node, fr)
+
+    def x_Yield(self, e, fr):
+        f = fr
+        if not hasattr(f, "yielded"):
+            self.unsupported("yield outside a generator function the evaluator entered", e, fr)
+        f.yielded.append(self.eval(e.value, fr) if e.value is not None else NONE)
+        return NONE
+
+    def x_YieldFrom(self, e, fr):
+        if not hasattr(fr, "yielded"):
+            self.unsupported("yield from outside a generator function the evaluator entered", e, fr)
+        fr.yielded.extend(self.iterate(self.eval(e.value, fr), fr, e))
+        return NONE
 
     def x_Attribute(self, e, fr):
         obj = self.eval(e.value, fr)
